@@ -71,8 +71,10 @@ def c11(prog, rep):
     from . import chain as CH, index as IX
     CH.rule_s3(prog, rep, C.C11_UNITS)
     IX.rule_idx(prog, rep)
+    O.rule_m5(prog, rep, C.C11_UNITS)
     rep.floor('S3', 1)
     rep.floor('IDX', 8)
+    rep.floor('M5', 2)
     rep.floor('M1', 6)
     rep.floor('M2', 30)
     rep.floor('M3', 50)
@@ -131,6 +133,11 @@ def c12(prog, rep):
     E.rule_r3(prog, rep, E.ACCESSOR_UNITS, om)
     E.rule_r2(prog, rep, E.ACCESSOR_UNITS)
     C.rule_m4(prog, rep, E.ACCESSOR_UNITS + ['src/utilities/qstring.c'], rid='R2-len')
+    E.rule_r2_move(prog, rep, E.ACCESSOR_UNITS)
+    from . import hasharr as HA
+    HA.rule_i7(prog, rep)
+    rep.floor('R2-move', 4)
+    rep.floor('I7', 2)
     rep.floor('R1', 55)
     rep.floor('R3', 38)
     rep.floor('R2', 8)
@@ -172,6 +179,8 @@ def c16(prog, rep):
 def c07(prog, rep):
     from . import hasharr as HA
     HA.rule_c07(prog, rep)
+    HA.rule_i7(prog, rep)
+    rep.floor('I7', 2)
     rep.floor('I1', 10)
     rep.floor('I2', 100)
     rep.floor('I3', 4)
